@@ -85,7 +85,7 @@ class Booster(ImmutableStateMixin):
     def randomize_side_effects(self):
         """Randomize side-effects' status according to chances to set in."""
         new_modes = {}
-        for effect_id, chance in self.__side_effect_chances:
+        for effect_id, chance in self.__side_effect_chances.items():
             # If it's supposed to be enabled, set state compliance mode, which
             # will keep effect running if item is in offline or higher state
             if random() < chance:
